@@ -7,7 +7,14 @@ SuiteOfKind(k) == [mode |-> k.mode, klen |-> k.klen, dir |-> k.dir, hash |-> k.h
 RulesOfKind(k) ==
     LET rs == SetToSeq(Rules(SuiteOfKind(k)))
     IN [i \in 1 .. Len(rs) |-> [kind |-> k.kind, field |-> rs[i].field, cls |-> rs[i].cls, err |-> rs[i].err]]
-AllRules == FlattenSeq([i \in 1 .. Len(Kinds) |-> RulesOfKind(Kinds[i])])
+SglName(mode, st) == (IF mode = GCM_SGL THEN "GCM_SGL/" ELSE "CHAPOLY_SGL/") \o st
+SglSeq(mode, st) ==
+    LET rs == SetToSeq(SglRules(mode, st))
+    IN [i \in 1 .. Len(rs) |-> [kind |-> SglName(mode, st), field |-> rs[i].field, cls |-> rs[i].cls, err |-> rs[i].err]]
+SglAll == FlattenSeq([i \in 1 .. 8 |->
+             SglSeq(IF i <= 4 THEN GCM_SGL ELSE CHAPOLY_SGL,
+                    CASE i % 4 = 1 -> "init" [] i % 4 = 2 -> "update" [] i % 4 = 3 -> "complete" [] OTHER -> "all")])
+AllRules == FlattenSeq([i \in 1 .. Len(Kinds) |-> RulesOfKind(Kinds[i])]) \o SglAll
 ASSUME RulesWellFormed({ SuiteOfKind(Kinds[i]) : i \in 1 .. Len(Kinds) })
 ASSUME ndJsonSerialize(IOEnv.RULES_OUT, AllRules)
 ASSUME PrintT(<<"RULES_EXPORTED", Len(AllRules), "SUITES", Len(Kinds)>>)
